@@ -56,9 +56,9 @@ func kindSort(k types.BasicKind) smt.Sort {
 	case types.Bool:
 		return smt.Bool
 	case types.Float32:
-		return smt.FP32
+		return sctx.FSort(32)
 	case types.Float64:
-		return smt.FP64
+		return sctx.FSort(64)
 	}
 	return smt.BV(kindWidth(k))
 }
@@ -390,7 +390,7 @@ func fpToInt(f *smt.Term, dst types.BasicKind) *smt.Term {
 	c := sctx
 	fs := f.S
 	fc := func(v float64) *smt.Term {
-		if fs.K == smt.KFP32 {
+		if fs.K == smt.KFP32 || (fs.K == smt.KBV && fs.W == 32) {
 			return c.F32C(float32(v))
 		}
 		return c.F64C(v)
@@ -403,7 +403,7 @@ func fpToInt(f *smt.Term, dst types.BasicKind) *smt.Term {
 	switch dst {
 	case types.Int32:
 		bad := c.Or(isnan, c.Or(c.FpCmp(smt.OFpLe, fc(2147483648.0), f), c.FpCmp(smt.OFpLt, f, fc(-2147483649.0))))
-		if fs.K == smt.KFP32 {
+		if fs.K == smt.KFP32 || (fs.K == smt.KBV && fs.W == 32) {
 			bad = c.Or(isnan, c.Or(c.FpCmp(smt.OFpLe, fc(2147483648.0), f), c.FpCmp(smt.OFpLt, f, fc(-2147483648.0))))
 		} else {
 			bad = c.Or(isnan, c.Or(c.FpCmp(smt.OFpLe, fc(2147483648.0), f), c.FpCmp(smt.OFpLe, f, fc(-2147483649.0))))
